@@ -100,3 +100,38 @@ Proof.
                = Some (mkCons (rev (map rf_b [5;6;7;8;9;10;11;12;13;14])) 0 false)) by (vm_compute; reflexivity).
   rewrite Ec in Hfold. injection Hfold as <-. specialize (Hfin eq_refl). vm_compute in Hfin. discriminate.
 Qed.
+
+(* ------------------------------------------------------------------ files_agree is needed *)
+
+Definition na_b (n : N) : block := mkBlock n n (n - 1) (n - 2).
+Definition na_f14 : block := mkBlock 114 14 13 12.
+Definition na_f15 : block := mkBlock 115 15 114 13.
+Definition na_canon : list block := map na_b [2;3;4;5;6;7;8;9;10;11;12;13;14;15;16;17;18;19;20].
+Definition na_U : list block := na_canon ++ [na_f14; na_f15].
+Definition na_c : jcfg := mkJ 2 5 10 0 5 None 0 0 0.
+Definition na_w : world :=
+  mkW (hub_run 2 5 hub_init []) ([na_b 12; na_b 13; na_f14; na_f15] ++ map na_b [14;15;16;17;18;19;20]).
+
+Lemma c07_files_agree_needed_proof : C07_files_agree_needed.
+Proof.
+  exists na_U, na_c, na_w, [(10, 4)], 16, na_canon, [].
+  split; [vm_compute; reflexivity|]. split; [vm_compute; reflexivity|].
+  split.
+  { split.
+    - exists []. split; [intros b p []|reflexivity].
+    - intros b Hb. vm_compute in Hb. vm_compute. tauto. }
+  split.
+  { split.
+    - vm_compute. repeat split.
+    - apply (NoDup_map_inv (fun x => x)). rewrite map_id. vm_compute.
+      repeat (constructor; [cbn; intros K; repeat (destruct K as [K|K]; [discriminate|]); exact K|]). constructor. }
+  split; [intros b Hb; unfold na_U; apply in_or_app; left; exact Hb|].
+  split; [apply eventual_tip_b_sound; vm_compute; reflexivity|].
+  split; [reflexivity|]. split; [reflexivity|]. split; [reflexivity|]. split; [reflexivity|].
+  split.
+  { apply Forall_forall. intros b Hb.
+    assert (H : forallb (fun b => bnum b <? file_bound) (filter (fun b => bnum b <? 16) na_canon) = true) by (vm_compute; reflexivity).
+    rewrite forallb_forall in H. apply N.ltb_lt. apply H. exact Hb. }
+  split; [exists (na_b 5); split; [vm_compute; tauto | vm_compute; reflexivity]|].
+  vm_compute. reflexivity.
+Qed.
